@@ -16,6 +16,7 @@ import YtkProofs.LensIdx
 import YtkProofs.ValidB
 import YtkProofs.HeapBuilder
 import YtkProofs.HeapBuilderRefine
+import YtkProofs.HeapBuild
 
 namespace Ytk.C03
 
@@ -177,6 +178,19 @@ theorem heap_addValueAt_abs (h h' : Heap) (c v : Addr) (d : AMap Node) (vn : Nod
     (hd : abs h c = some (.cont d)) (hv : abs h v = some vn) (he : addValueAtH h c path v = some h') :
     Inv h' ∧ abs h' c = some (.cont (addValueAt d path vn)) :=
   addValueAtH_refines hi hs hap hcl hvl hd hv he
+
+/-- … with a NEWLY BUILT value node (`build h n`: what `dom.LeafNode` / `ListNode` / a new container
+    filled by `AddValue` give — every cell new) all hypotheses on the value are met by construction:
+    for every well-formed value-level node `n`, `AddValueAt(path, <new n>)` / `AddValue(name, <new n>)`
+    on a tree-shaped document is the value-level `addValueAt d path n` / `add d name n`. This is
+    literally what the model driver executes for a harness case. -/
+theorem heap_addValueAt_build_abs (h h' : Heap) (c : Addr) (d : AMap Node) (n : Node) (hi : Inv h) (hwf : n.WF)
+    (hcl : c < h.size) (hs : SibSep h c) (hd : abs h c = some (.cont d)) :
+    (∀ path, addValueAtH (build h n).1 c path (build h n).2 = some h' →
+      Inv h' ∧ abs h' c = some (.cont (addValueAt d path n))) ∧
+    (∀ name, addH (build h n).1 c name (build h n).2 = some h' →
+      Inv h' ∧ abs h' c = some (.cont (add d name n))) :=
+  ⟨fun _ he => addValueAt_build_refines hi n hwf hcl hs hd he, fun _ he => addValue_build_refines hi n hwf hcl hs hd he⟩
 
 /-- REFINEMENT of `RemoveAt` / `Remove`. -/
 theorem heap_removeAt_abs (h h' : Heap) (c : Addr) (d : AMap Node) (hi : Inv h) (hcl : c < h.size)
